@@ -124,3 +124,7 @@ def check(ctx):
                    by=("= True",))
     # the shield flag has exactly the constructor and the setter as writers
     writer_table(ctx, "R04-f", "_shield", {"CancelScope.__init__": {"assign"}, "CancelScope.shield@setter": {"assign"}}, floor=2, modules=[A])
+
+    # ---- R04-g a declared shield reaches the scope that is entered ---------------------------------------------------------------------
+    from .common import shield_chain
+    shield_chain(ctx, "R04-g")
